@@ -281,7 +281,9 @@ def resumeScan (c : Nat) : List ChunkDoc → Nat → Nat → Option (Nat × Nat)
     if d.n ≠ expected ∨ d.data.length ≠ c then none
     else resumeScan c ds (expected + 1) (length + d.data.length)
 
-/-- UploadStream.Resume; returns (stream, length, err).  The marker is assigned before it is checked. -/
+/-- UploadStream.Resume; returns (stream, length, err).  The found marker is held in a local variable and
+    adopted (s.marker, together with s.chunks / s.length) only after every check has passed: a rejected
+    Resume leaves the stream unchanged (pristine), so a following Abort removes nothing. -/
 def UploadStream.resume (st : Store) (s : UploadStream) : UploadStream × Nat × Option Err :=
   if s.tracked = false then (s, 0, some .notTracked)
   else if s.marker.isSome ∨ s.buffer.length > 0 then (s, 0, some .notPristine)
@@ -289,13 +291,12 @@ def UploadStream.resume (st : Store) (s : UploadStream) : UploadStream × Nat ×
     match st.findMarker s.id with
     | none => (s, 0, some .noDocuments)
     | some m =>
-      let s := { s with marker := some m.id }
       if m.state ≠ .uploading then (s, 0, some .badState)
       else if m.chunkSize ≠ s.chunkSize then (s, 0, some .chunkSizeMismatch)
       else
         match resumeScan s.chunkSize (st.chunksOfFile s.id) 0 0 with
         | none => (s, 0, some .invalidChunk)
-        | some (expected, length) => ({ s with chunks := expected, length := length }, length, none)
+        | some (expected, length) => ({ s with marker := some m.id, chunks := expected, length := length }, length, none)
 
 /-! ## Bucket operations -/
 
